@@ -145,6 +145,18 @@ def systematic_plan_cases():
                             out.append(vfmt([0, bpb, bibl, 0, [BIG] * k + [item], [H] + [D(c) for c in chunks] + tail]))
     return out
 
+def free_in_fatal_cases():
+    """free (without close) on a handle in state FATAL with a pending partial block: free itself must
+    flush it through the callback, report a failure met there, call the closer and leak nothing"""
+    out = []
+    for bpb in (0, 3, 7):
+        data = bytes(range(1, (bpb or 4) + 2))
+        for mis in ([H, D(data), H], [H, D(data), F, D(b"x")], [H, D(data[:1]), D(data[1:]), H, S(2)]):
+            for plan in ([], [BIG, -1], [BIG, 1], [-1], [BIG, 0], [1, 1, -1]):
+                for tail in ([X], [C, X]):
+                    out.append(vfmt([0, bpb, [], 0, plan, mis + tail]))
+    return out
+
 def gen_mem_cases(r, tier):
     out = []
     # every buffer size 0 .. needed+1 for small configurations
@@ -262,8 +274,9 @@ def oracle(case_line, impl_line):
     has_close = any(o[0] == 4 for o in ops)
     if leaked or closer != (1 if oret == 0 else 0):
         key = KEY_FATAL_FREE if not has_close else "C09:leak:after-close"
-        return (key, "after archive_write_free: heap still holds the client filter state (leaked=%d) and the client close "
-                     "callback was invoked %d time(s) although the open callback returned %d" % (leaked, closer % 1000, oret))
+        return (key, "after archive_write_free: heap %s the client filter state (leaked=%d) and the client close callback was "
+                     "invoked %d time(s) although the open callback returned %d" %
+                     ("still holds" if leaked else "no longer holds", leaked, closer % 1000, oret))
     # fail_reported: a refused invocation ends the API call in progress with an error
     refused_seen = False
     for k, (op, (st, tr)) in enumerate(zip(ops, results)):
@@ -416,7 +429,7 @@ def run(rep):
     exe = vlib.compile_harness("writeCore", "asan")
     r = vlib.rng(rep.seed, "C09")
     quick = rep.tier == "quick"
-    plan_cases = systematic_plan_cases()
+    plan_cases = systematic_plan_cases() + free_in_fatal_cases()
     plan_cases += [gen_plan_case(r, small=True) for _ in range(1500 if quick else 30000)]
     plan_cases += [gen_plan_case(r) for _ in range(700 if quick else 12000)]
     mem_cases = gen_mem_cases(r, rep.tier)
@@ -438,7 +451,7 @@ def run(rep):
              "random chunkings incl. empty writes x callback plans (accept-all, short accepts, 0 returns, one failure at a "
              "random invocation) + EVERY failing / short-accepting invocation index for bpb {0,1,2,3,7}; open callback "
              "returning -30/-25/-20/-1/1; call sequences with/without finish_entry, close, double close, misuse into state "
-             "FATAL; archive_write_open_memory for EVERY buffer size 0..needed+1 (small) and boundary sizes (large) with the "
+             "FATAL, free with and without close on a FATAL handle with a pending block and a failing callback; archive_write_open_memory for EVERY buffer size 0..needed+1 (small) and boundary sizes (large) with the "
              "buffer malloc'ed exactly (ASan red zone); ustar writer (1-3 entries) with the same plans, alone and under each "
              "built-in write filter (gzip bzip2 compress lzma xz uuencode lzip lz4 zstd), oracle only. "
              "non-trivial = the plan contains an item that refuses or shortens a write, or the data exceed one block "
